@@ -470,6 +470,22 @@ theorem C08_region_mixed_pair (r s : BqVerif.Region.Region) (hr : r.wf = true) (
     r.dependsOn s = false ∧ s.dependsOn r = false ∧ r.ltRegion s = .error .value :=
   BqVerif.Region.Region.mixed_pair r s hr hs q1 q2 a1 b1 a2 b2 h1r h1s h1 h2r h2s h2
 
+/-- **The `strict` test of `Circuit.check_region`** ("Disconnect detected in region" unless every two
+    intervals overlap) is 1-D Helly: it passes iff `max_min_cycle <= min_max_cycle` iff some cycle
+    lies in the interval of every qudit - the column `straighten` aligns the region on. -/
+theorem C08_region_strict (r : BqVerif.Region.Region) (hr : r.wf = true) (hne : r ≠ []) :
+    (r.strictOk = true ↔ ∃ a b, r.maxMinCycle = .ok a ∧ r.minMaxCycle = .ok b ∧ a ≤ b)
+    ∧ (r.strictOk = true ↔ ∃ c, ∀ p ∈ r, p.2.mem c = true) := by
+  have h := BqVerif.Region.Region.strictOk_iff r hr hne
+  have he : r.isEmpty = false := by cases r <;> simp_all
+  refine ⟨?_, h.2⟩
+  rw [h.1]
+  simp only [BqVerif.Region.Region.maxMinCycle, BqVerif.Region.Region.minMaxCycle,
+    BqVerif.Region.Region.guardNE, he, Bool.false_eq_true, if_false, Except.ok.injEq]
+  constructor
+  · intro h; exact ⟨_, _, rfl, rfl, h⟩
+  · rintro ⟨a, b, rfl, rfl, h⟩; exact h
+
 /-- non-vacuity: two blocks of a 3-qudit circuit, the second after the first on qudit 1 -/
 example :
     let r : BqVerif.Region.Region := [(1, ⟨2, 3⟩), (2, ⟨0, 3⟩)]
